@@ -1,9 +1,18 @@
 import Pose.Wire
 import Pose.Driver.Lie
-/-! Driver ops for C01. -/
+/-! Driver ops for C01: `Exp` of an algebra element followed by `tensor()` and `matrix()` in one reply
+(storage of the group element, then the matrix row-major), so the transcendentals are evaluated once. -/
 namespace PP.Driver
 open PP Wire
 
-def opsC01 : List (String × Handler) := []
+def opsC01 : List (String × Handler) := [
+  ("c01.so3", withEps 3 fun e l => let X := so3Exp e (v3 l); X.toList ++ (SO3matrix X).toList),
+  ("c01.se3", withEps 6 fun e l => let X := se3Exp e (tose3 l); X.toList ++ (SE3matrix X).flat),
+  ("c01.rxso3", withEps 4 fun e l => let X := rxso3Exp e (torx l); X.toList ++ (RxSO3matrix X).flat),
+  ("c01.sim3", withEps 7 fun e l => let X := sim3Exp e (tosim l); X.toList ++ (Sim3matrix X).flat),
+  -- the coupling matrix alone and its coefficients (A, B, C), for diagnostics / replay
+  ("c01.WsCoef", withEps 2 fun e l =>
+      let c := rxso3WsCoef e (l.getD 0 default) (l.getD 1 default); [c.1, c.2.1, c.2.2])
+]
 
 end PP.Driver
